@@ -1,5 +1,10 @@
 import Proofs.Bits
 import Proofs.Search
+import Proofs.ProbingAuto
+import Proofs.ProbingP2
+import Proofs.ProbingAutoP2Run
+import Proofs.ProbingAutoInserts
+import Proofs.ProbingRunD
 /-!
 # C20 — Core lookup primitives behave as exact maps and arrays  (bit-packing clause)
 
@@ -356,5 +361,283 @@ theorem binary_find_correct (a : Nat → Nat) (key fuel b e : Nat)
 /-- non-vacuity: a two-valued array with duplicates, probed through `Pivot32` -/
 example : sortedUniformFind (fun i => if i < 3 then 7 else if i < 5 then 8 else 9) pivot32 8 0 7 = some 4 ∧
           sortedUniformFind (fun i => if i < 3 then 7 else 9) pivot32 8 0 6 = none := by decide
+
+/-! ## Probing hash table (util/probing_hash_table.hh)
+
+"A probing hash table finds every key inserted so far with its value and reports every other key
+absent, for any insertion sequence that keeps it below capacity, and the growing variant preserves
+this across every doubling, including entries that had wrapped around the end; exceeding capacity
+raises an exception instead of looping."
+
+Model: `Model/Probing.lean` (`Find`, `Insert`, `FindOrInsert`, `UncheckedInsert`, the three loops of
+`Double`, `AutoProbing::{Insert, FindOrInsert, DoubleIfNeeded}`, `Power2Mod`).  The hash `h` is an
+arbitrary function, the bucket count any `N ≥ 1`.  `Inv h t`: keys stored once, every bucket between
+a key's ideal bucket and its bucket (cyclically) occupied, one empty bucket, `occupied ≤ entries_`.
+`Abs t M`: the stored pairs are exactly the map `M`.
+-/
+section Probing
+open KV.Probing
+
+/-- **`Find` returns the value of every inserted key and `absent` for every other key** -/
+theorem find_correct (h : Nat → Nat) (t : Table) (M : Nat → Option Nat) (inv : Inv h t) (abs : Abs t M)
+    (k : Nat) : find h t k = some (M k) :=
+  find_correct' h t M inv abs k
+
+/-- **`Insert` of a fresh key below capacity** succeeds, keeps the invariant and extends the map -/
+theorem insert_spec (h : Nat → Nat) (t : Table) (M : Nat → Option Nat) (k v : Nat) (inv : Inv h t)
+    (abs : Abs t M) (hM : M k = none) (hc : t.entries + 1 < t.N) :
+    ∃ q t', insert h t k v = .ok (q, t') ∧ Inv h t' ∧ Abs t' (upd M k v) ∧
+      t'.N = t.N ∧ t'.entries = t.entries + 1 ∧ q < t.N ∧ t'.s q = some (k, v) :=
+  insert_spec' h t M k v inv abs hM hc
+
+/-- **exceeding capacity raises instead of looping**: `Insert` throws before its loop, `FindOrInsert`
+of an absent key terminates at the empty bucket the invariant guarantees and throws there; the state
+left behind (with `entries_` incremented) still satisfies the invariant and represents the same map -/
+theorem full_throws (h : Nat → Nat) (t : Table) (M : Nat → Option Nat) (k v : Nat) (inv : Inv h t)
+    (abs : Abs t M) (hc : t.entries + 1 ≥ t.N) :
+    insert h t k v = .full { t with entries := t.entries + 1 } ∧
+    (M k = none → findOrInsert h t k v = .full { t with entries := t.entries + 1 }) ∧
+    Inv h { t with entries := t.entries + 1 } ∧ Abs { t with entries := t.entries + 1 } M :=
+  ⟨insert_full h t k v hc, fun hM => findOrInsert_full h t M k v inv abs hM hc, Inv_bump h t inv, abs⟩
+
+/-- **`FindOrInsert`**: a present key is found with its value and nothing changes; an absent key is
+inserted below capacity -/
+theorem findOrInsert_spec (h : Nat → Nat) (t : Table) (M : Nat → Option Nat) (k v : Nat) (inv : Inv h t)
+    (abs : Abs t M) :
+    (∀ v', M k = some v' →
+      ∃ p, findOrInsert h t k v = .ok (true, p, v', t) ∧ p < t.N ∧ t.s p = some (k, v')) ∧
+    (M k = none → t.entries + 1 < t.N →
+      ∃ p t', findOrInsert h t k v = .ok (false, p, v, t') ∧ Inv h t' ∧ Abs t' (upd M k v) ∧
+        t'.N = t.N ∧ t'.entries = t.entries + 1 ∧ p < t.N ∧ t'.s p = some (k, v)) :=
+  ⟨fun v' hM => findOrInsert_found h t M k v v' inv abs hM,
+   fun hM hc => findOrInsert_new h t M k v inv abs hM hc⟩
+
+/-- **fuel**: the model's `none` ("does not terminate") arises exactly when every bucket holds
+another key — then the unbounded C++ loop cycles forever, with any amount of fuel -/
+theorem scan_diverges_iff (s : Slots) (N k i : Nat) (hi : i < N) :
+    scan s N k N i = none ↔ ∀ x, x < N → ∃ k' v', s x = some (k', v') ∧ k' ≠ k :=
+  ⟨scan_none_all_other s N k i hi, fun hall => scan_all_other_none s N k hall N i hi⟩
+
+/-- **any script** of `Insert` (fresh keys) / `FindOrInsert` / `Find` on a table that represents the
+specification state produces exactly the outputs of the map-with-capacity specification
+(`runSpec`: a map, an insertion counter, "full" once `count + 1 ≥ N`), never diverges, and ends in a
+table that again represents the specification state -/
+theorem run_refines_map (h : Nat → Nat) (ops : List Op) (t : Table) (σ : Spec) (outs : List Out) (σ' : Spec)
+    (r : Ref h t σ) (hs : runSpec σ ops = some (outs, σ')) :
+    ∃ t', runT h t ops = some (outs, t') ∧ Ref h t' σ' :=
+  run_refines h ops t σ outs σ' r hs
+
+/-- … in particular from the freshly cleared table -/
+theorem run_refines_map_from_empty (h : Nat → Nat) (N : Nat) (hN : 0 < N) (ops : List Op) (outs : List Out)
+    (σ' : Spec) (hs : runSpec { M := fun _ => none, count := 0, N := N } ops = some (outs, σ')) :
+    ∃ t', runT h (emptyTable N) ops = some (outs, t') ∧ Ref h t' σ' :=
+  run_refines h ops _ _ outs σ' ⟨Inv_empty h N hN, Abs_empty N, rfl, rfl⟩ hs
+
+/-- **the property in its own words, fixed size**: after inserting any sequence of distinct keys that
+keeps the table below capacity (`length < N`), every inserted key is found with its value and every
+other key is reported absent — for every hash function and every bucket count -/
+theorem inserted_found (h : Nat → Nat) (N : Nat) (kvs : List (Nat × Nat))
+    (hd : kvs.Pairwise (fun a b => a.1 ≠ b.1)) (hc : kvs.length < N) :
+    ∃ t, runT h (emptyTable N) (insertsOf kvs) = some (kvs.map (fun _ => Out.done), t) ∧
+      (∀ k v, (k, v) ∈ kvs → find h t k = some (some v)) ∧
+      (∀ k, (∀ v, (k, v) ∉ kvs) → find h t k = some none) :=
+  KV.Probing.inserted_found h N kvs hd hc
+
+/-- the `UncheckedInsert` loop fails to terminate exactly on a completely full table -/
+theorem firstEmpty_diverges_iff (s : Slots) (N i : Nat) (hi : i < N) :
+    firstEmpty s N N i = none ↔ ∀ x, x < N → s x ≠ none :=
+  firstEmpty_diverges_iff' s N i hi
+
+/-- a table sized like `ProbingHashTable::Size(n, multiplier)` (`DivMod`: `max(n + 1, ⌊multiplier · n⌋)` buckets,
+for whatever value `f` the floating-point product takes) holds any `≤ n` distinct keys without exception -/
+theorem sized_table_holds (h : Nat → Nat) (n f : Nat) (kvs : List (Nat × Nat))
+    (hd : kvs.Pairwise (fun a b => a.1 ≠ b.1)) (hn : kvs.length ≤ n) :
+    ∃ t, runT h (emptyTable (max (n + 1) f)) (insertsOf kvs) = some (kvs.map (fun _ => Out.done), t) ∧
+      (∀ k v, (k, v) ∈ kvs → find h t k = some (some v)) ∧
+      (∀ k, (∀ v, (k, v) ∉ kvs) → find h t k = some none) :=
+  KV.Probing.sized_table_holds h n f kvs hd hn
+
+/-- **the probe loops stay inside the table**: their results do not depend on anything outside buckets
+`[0, N)`, and the bucket `UncheckedInsert` writes is one of them -/
+theorem probe_reads_in_range (s s' : Slots) (N k fuel i : Nat) (heq : ∀ x, x < N → s x = s' x) (hi : i < N) :
+    scan s N k fuel i = scan s' N k fuel i ∧ firstEmpty s N fuel i = firstEmpty s' N fuel i ∧
+    (∀ q, firstEmpty s N fuel i = some q → q < N ∧ s q = none) :=
+  ⟨scan_in_range s s' N k heq fuel i hi, firstEmpty_in_range s s' N heq fuel i hi,
+   fun q hq => firstEmpty_lt s N fuel i q hi hq⟩
+
+/-- **`Double` preserves the table**: all three loops terminate, the result satisfies the invariant
+for `2 N`, represents the same map (including every entry that had wrapped around the end),
+`entries_` and the number of occupied buckets are unchanged -/
+theorem double_preserves (h : Nat → Nat) (t : Table) (M : Nat → Option Nat) (inv : Inv h t) (abs : Abs t M) :
+    ∃ t', double h t = some t' ∧ Inv h t' ∧ Abs t' M ∧ t'.N = 2 * t.N ∧ t'.entries = t.entries ∧
+      occ t'.s t'.N = occ t.s t.N :=
+  double_preserves' h t M inv abs
+
+/-- **`Double` writes only buckets `[0, 2N)`** — the memory the caller handed over — and nothing beyond -/
+theorem double_frame (h : Nat → Nat) (t t' : Table) (hN : 0 < t.N) (hd : double h t = some t') :
+    ∀ x, 2 * t.N ≤ x → t'.s x = t.s x :=
+  KV.Probing.double_frame h t t' hN hd
+
+/-- **scripts that call `Double` explicitly** (any bucket count, `DivMod`): the table refines the map
+specification whose capacity doubles at each `Double` -/
+theorem run_with_double_refines_map (h : Nat → Nat) (ops : List OpD) (t : Table) (σ : Spec)
+    (outs : List (Option Out)) (σ' : Spec) (r : Ref h t σ) (hs : runSpecD σ ops = some (outs, σ')) :
+    ∃ t', runTD h t ops = some (outs, t') ∧ Ref h t' σ' :=
+  runD_refines h ops t σ outs σ' r hs
+
+/-- a 3-bucket table (not a power of two): two insertions, the third raises, `Double`, then it fits -/
+example :
+    let r := runTD id (emptyTable 3)
+      [.base (.insert 2 20), .base (.insert 5 50), .base (.insert 8 80), .double, .base (.insert 8 80), .base (.find 5)]
+    r.map (·.1) = some [some .done, some .done, some .full, none, some .done, some (.got (some 50))] ∧
+    r.map (fun r => (r.2.N, r.2.entries)) = some (6, 4) ∧
+    r.map (fun r => (List.range 6).map r.2.s) = some [none, none, some (2, 20), some (8, 80), none, some (5, 50)] := by
+  decide
+
+/-- **`AutoProbing` refines the plain map across any number of doublings**, for every threshold
+function with `θ N ≤ N - 1` and `N ≤ θ (2 N)`: no capacity exception, no divergence -/
+theorem auto_refines_map (h : Nat → Nat) (θ : Nat → Nat) (hθ : ThetaOK θ) (ops : List Op) (a : Auto)
+    (M : Nat → Option Nat) (outs : List Out) (M' : Nat → Option Nat) (r : ARef h θ a M)
+    (hs : runMap M ops = some (outs, M')) :
+    ∃ a', runA h θ a ops = some (outs, a') ∧ ARef h θ a' M' :=
+  runA_refines h θ hθ ops a M outs M' r hs
+
+/-- … instantiated with the code's threshold `min (N - 1) (0.9 N)` and a fresh table of any size ≥ 1
+(`AutoProbing(0)` starts with one bucket) -/
+theorem auto_refines_map_real (h : Nat → Nat) (N : Nat) (hN : 0 < N) (ops : List Op) (outs : List Out)
+    (M' : Nat → Option Nat) (hs : runMap (fun _ => none) ops = some (outs, M')) :
+    ∃ a', runA h thetaReal { t := emptyTable N, thr := thetaReal N } ops = some (outs, a') ∧
+      ARef h thetaReal a' M' :=
+  runA_refines h thetaReal thetaReal_ok ops _ _ outs M' (auto_init h thetaReal N hN) hs
+
+theorem theta_real_ok : ThetaOK thetaReal := thetaReal_ok
+
+/-! ### `Power2Mod` is `DivMod` on powers of two -/
+
+theorem power2_next_eq (j i : Nat) (hi : i < 2^j) : nextP2 (2^j) i = next (2^j) i := nextP2_eq j i hi
+theorem power2_ideal_eq (h : Nat → Nat) (j k : Nat) : idealP2 h (2^j) k = ideal h (2^j) k := idealP2_eq h j k
+
+/-- the constructor of `Power2Mod` accepts exactly the powers of two … -/
+theorem power2_ctor_iff (n : Nat) : isPow2 n = true ↔ ∃ j, n = 2^j := isPow2_iff n
+
+/-- … and on those the mask versions of all table operations coincide with the `DivMod` versions,
+so every theorem above holds for `ProbingHashTable<…, Power2Mod>` and for `AutoProbing`'s backend -/
+theorem power2_ops_eq (h : Nat → Nat) (t : Table) (j : Nat) (hN : t.N = 2^j) (k v : Nat) :
+    findPosP2 h t k = findPos h t k ∧ insertP2 h t k v = insert h t k v ∧
+    findOrInsertP2 h t k v = findOrInsert h t k v ∧ uncheckedInsertP2 h t k v = uncheckedInsert h t k v :=
+  ⟨findPosP2_eq h t j k hN, insertP2_eq h t j k v hN, findOrInsertP2_eq h t j k v hN,
+   uncheckedInsertP2_eq h t j k v hN⟩
+
+/-- **`RoundBuckets`** returns the least power of two `≥ x` (for `1 ≤ x ≤ 2^63`) -/
+theorem roundBuckets (x : Nat) (h1 : 1 ≤ x) (h2 : x ≤ 2^63) :
+    ∃ j, KV.Probing.roundBuckets x = 2^j ∧ x ≤ 2^j ∧ (j = 0 ∨ 2^(j-1) < x) :=
+  roundBuckets_spec x h1 h2
+
+/-- `Double` as `Power2Mod` executes it (`mask_ = (mask_ << 1) | 1`, mask versions of `Ideal`/`Next`)
+is the `Double` of `double_preserves` -/
+theorem power2_double_eq (h : Nat → Nat) (t : Table) (j : Nat) (hN : t.N = 2^j) : doubleP2 h t = double h t :=
+  doubleP2_eq h t j hN
+
+/-- **`AutoProbing` as it is compiled** — backend `ProbingHashTable<…, Power2Mod>` with mask arithmetic in
+every operation and in `Double` (`runAP2`), initial bucket count `RoundBuckets(x)`, the code's threshold —
+refines the plain map on every script: no exception, no divergence, across all doublings -/
+theorem auto_refines_map_power2 (h : Nat → Nat) (x : Nat) (h1 : 1 ≤ x) (h2 : x ≤ 2^63) (ops : List Op)
+    (outs : List Out) (M' : Nat → Option Nat) (hs : runMap (fun _ => none) ops = some (outs, M')) :
+    ∃ a', runAP2 h thetaReal { t := emptyTable (KV.Probing.roundBuckets x), thr := thetaReal (KV.Probing.roundBuckets x) } ops
+        = some (outs, a') ∧ ARef h thetaReal a' M' := by
+  obtain ⟨j, hj, _, _⟩ := roundBuckets_spec x h1 h2
+  have hpos : 0 < KV.Probing.roundBuckets x := by rw [hj]; exact Nat.two_pow_pos j
+  obtain ⟨a', hr, r, _⟩ := runAP2_refines h thetaReal thetaReal_ok ops _ _ outs M'
+    (auto_init h thetaReal _ hpos) ⟨j, hj⟩ hs
+  exact ⟨a', hr, r⟩
+
+/-- **the property in its own words, growing variant** (as compiled: `Power2Mod` backend, `RoundBuckets(x)`
+initial buckets, the code's threshold): after inserting any list of distinct keys — of any length, through
+however many doublings — every inserted key is found with its value and every other key is absent -/
+theorem auto_inserted_found (h : Nat → Nat) (x : Nat) (h1 : 1 ≤ x) (h2 : x ≤ 2^63) (kvs : List (Nat × Nat))
+    (hd : kvs.Pairwise (fun a b => a.1 ≠ b.1)) :
+    ∃ a, runAP2 h thetaReal { t := emptyTable (KV.Probing.roundBuckets x), thr := thetaReal (KV.Probing.roundBuckets x) }
+          (insertsOf kvs) = some (kvs.map (fun _ => Out.done), a) ∧
+      (∀ k v, (k, v) ∈ kvs → a.find h k = some (some v)) ∧
+      (∀ k, (∀ v, (k, v) ∉ kvs) → a.find h k = some none) :=
+  KV.Probing.auto_inserted_found h x h1 h2 kvs hd
+
+example : KV.Probing.roundBuckets 1 = 1 ∧ KV.Probing.roundBuckets 5 = 8 ∧ KV.Probing.roundBuckets 8 = 8 ∧
+    KV.Probing.roundBuckets (2^63) = 2^63 ∧ KV.Probing.roundBuckets (2^63 + 1) = 0 := by decide
+
+/-! ### non-vacuity: a concrete table with a wrapped cluster, and its `Double`
+
+Identity hash, 8 buckets; `Insert` 15, 31, 2, 10, 3:  15 → bucket 7, 31 → 7 is taken, wraps to 0,
+2 → 2, 10 → 3, 3 → 4.  The invariant of this table is obtained from `run_refines_map_from_empty`
+(the hypotheses of all theorems above are satisfiable by a state with a wrapped cluster). -/
+
+def exOps : List Op := [.insert 15 150, .insert 31 310, .insert 2 20, .findOrInsert 10 100, .insert 3 30]
+def exSpec : Spec := ((runSpec { M := fun _ => none, count := 0, N := 8 } exOps).map (·.2)).getD ⟨fun _ => none, 0, 0⟩
+def exT : Table := ((runT id (emptyTable 8) exOps).map (·.2)).getD (emptyTable 8)
+
+theorem exT_ref : Ref id exT exSpec := by
+  obtain ⟨t', h1, r⟩ := run_refines_map_from_empty id 8 (by decide) exOps
+    [.done, .done, .done, .foi false 100, .done] exSpec rfl
+  have : exT = t' := by unfold exT; rw [h1]; rfl
+  rw [this]; exact r
+
+/-- the layout: 31 has wrapped around the end, 10 and 3 are displaced -/
+example : (List.range 8).map exT.s = [some (31, 310), none, some (2, 20), some (10, 100), some (3, 30), none, none, some (15, 150)]
+    ∧ exT.entries = 5 ∧ ideal id 8 31 = 7 := by decide
+
+example : Inv id exT ∧ Abs exT exSpec.M ∧ exSpec.M 31 = some 310 ∧ exSpec.M 4 = none ∧
+    find id exT 31 = some (some 310) ∧ find id exT 4 = some none ∧ find id exT 23 = some none :=
+  ⟨exT_ref.inv, exT_ref.abs, rfl, rfl, by decide, by decide, by decide⟩
+
+/-- `insert_spec`'s hypotheses hold for key 23 (ideal bucket 7, wraps to bucket 1) -/
+example : exSpec.M 23 = none ∧ exT.entries + 1 < exT.N ∧
+    (match insert id exT 23 230 with | .ok (q, _) => q == 1 | _ => false) = true := by decide
+
+/-- `findOrInsert_spec`, both branches: 31 is found at bucket 0 with its value and nothing changes; 23 is new
+and lands in bucket 1 (after wrapping from its ideal bucket 7) -/
+example : (match findOrInsert id exT 31 5 with | .ok (true, 0, 310, t) => t.entries == 5 | _ => false) = true ∧
+    (match findOrInsert id exT 23 230 with | .ok (false, 1, 230, t) => t.entries == 6 | _ => false) = true := by decide
+
+/-- `Power2Mod`: wrap by mask, constructor test -/
+example : nextP2 8 7 = 0 ∧ nextP2 8 3 = 4 ∧ idealP2 id 8 31 = 7 ∧ isPow2 8 = true ∧ isPow2 12 = false ∧ isPow2 0 = false ∧
+    (doubleP2 id exT).map (fun t => (List.range 16).map t.s) = (double id exT).map (fun t => (List.range 16).map t.s) := by
+  decide
+
+/-- `Double` of it: 31 is buffered and wraps again (15 and 31 both have the new ideal bucket 15),
+3 moves back into the gap left by 10, 10 moves to the new half -/
+example : (double id exT).map (fun t => ((List.range 16).map t.s, t.N, t.entries)) =
+    some ([some (31, 310), none, some (2, 20), some (3, 30), none, none, none, none, none, none, some (10, 100),
+           none, none, none, none, some (15, 150)], 16, 5) := by decide
+
+example : ∃ t', double id exT = some t' ∧ Inv id t' ∧ Abs t' exSpec.M ∧ find id t' 31 = some (some 310) := by
+  obtain ⟨t', h1, inv', abs', _⟩ := double_preserves id exT exSpec.M exT_ref.inv exT_ref.abs
+  exact ⟨t', h1, inv', abs', find_correct id t' _ inv' abs' 31⟩
+
+/-- at capacity: a table of 2 buckets holds one entry; the next `Insert` / `FindOrInsert` raises -/
+example : (match insert id (emptyTable 2) 5 50 with
+           | .ok (_, t) => (match insert id t 7 70 with | .full _ => true | _ => false) &&
+                           (match findOrInsert id t 7 70 with | .full _ => true | _ => false) &&
+                           (find id t 7 == some none)
+           | _ => false) = true := by decide
+
+/-- the rolled-over buffer is necessary: without it (`doubleNoRoll`) the 4-bucket table {7 ↦ bucket 3,
+3 ↦ wrapped to bucket 0} loses key 3 (it is re-inserted behind 7, and then 7 moves away) -/
+theorem double_without_rollover_loses :
+    let t := ((runT id (emptyTable 4) [.insert 7 70, .insert 3 30]).map (·.2)).getD (emptyTable 4)
+    find id t 3 = some (some 30) ∧
+    ((doubleNoRoll id t).bind fun t' => find id t' 3) = some none ∧
+    ((double id t).bind fun t' => find id t' 3) = some (some 30) := by decide
+
+/-- `AutoProbing(0)`: one bucket, threshold 0; ten insertions go through four doublings -/
+example : (runA id thetaReal { t := emptyTable 1, thr := thetaReal 1 }
+            ((List.range 10).map fun i => Op.insert (8 * i + 7) i)).map (fun r => (r.2.t.N, r.2.t.entries, r.2.thr)) =
+    some (16, 10, 14) := by decide
+
+/-- the same ten insertions through the literal `Power2Mod` code path -/
+example : (runAP2 id thetaReal { t := emptyTable 1, thr := thetaReal 1 }
+            ((List.range 10).map fun i => Op.insert (8 * i + 7) i)).map (fun r => (r.2.t.N, r.2.t.entries, r.2.thr)) =
+    some (16, 10, 14) := by decide
+
+end Probing
 
 end KV.C20
